@@ -467,6 +467,7 @@ func c03(x *mon.Ctx) {
 	x.Require("qe-bitflip-member", 0, nw*300, nw*300)
 	x.Require("tcb-control-second-genuine-signer", nw, 0, nw)
 	x.Require("qe-signer-is-platform-ca", 0, nw, nw)
+	stageEventsForgedUnderDefaultRoot(x)
 }
 
 func indexOf(d docRef) int {
